@@ -29,9 +29,9 @@ const CFN_DATA: &str = "{\n  \"Resources\": {\n    \"b1\": {\"Type\": \"AWS::S3:
 const TF_RULES: &str = "rule names { resource_changes[*].change.after.name == \"x\" <<name>> }\nrule sizes { resource_changes[*].change.after.size <= 10 <<size>> }\nrule tagged { resource_changes[*].change.after.tags in [[\"a\"], [\"b\"]] }\n";
 const TF_DATA: &str = "{\n \"resource_changes\": [\n  {\"address\": \"aws_s3_bucket.b1\", \"change\": {\"after\": {\"name\": \"y\", \"size\": 50, \"tags\": [\"q\"]}}},\n  {\"address\": \"aws_s3_bucket.b2\", \"change\": {\"after\": {\"name\": \"z\", \"size\": 5, \"tags\": [\"a\"]}}},\n  {\"address\": \"aws_ebs_volume.v1\", \"change\": {\"after\": {\"name\": \"x\", \"size\": 70, \"tags\": [\"r\"]}}},\n  {\"address\": \"aws_ebs_volume.v2\", \"change\": {\"after\": {\"name\": \"w\", \"size\": 80, \"tags\": [\"s\"]}}}\n ]\n}\n";
 // every built-in except now(): date parsing with and without a UTC offset, conversions, string functions
-const FN_RULES: &str = "rule fe { let e = parse_epoch(t1)\n %e == 1724198400 <<fe>> }\nrule fc { let n = count(l[*])\n %n == 5 <<fc>> }\nrule fj { let j = join(names[*], \",\")\n %j == \"a,b\" <<fj>> }\nrule fu { let u = to_upper(names[*])\n %u == \"A\" <<fu>> }\nrule fr { let r = regex_replace(names[*], \"a\", \"-\")\n %r == \"-\" <<fr>> }\nrule fp { let p = parse_int(nums[*])\n %p in [1, 2] <<fp>> }\nrule fs { let s = substring(names[*], 0, 1)\n %s == \"a\" <<fs>> }\nrule fd { let d = url_decode(enc)\n %d == \"a b\" <<fd>> }\nrule fk { let k = json_parse(js)\n %k.k == 2 <<fk>> }\n";
+const FN_RULES: &str = "rule fe { let e = parse_epoch(t1)\n %e == 1724198400 <<fe>> }\nrule fc { let n = count(l[*])\n %n == 5 <<fc>> }\nrule fj { let j = join(names[*], \",\")\n %j == \"a,b\" <<fj>> }\nrule fu { let u = to_upper(names[*])\n %u == \"A\" <<fu>> }\nrule fr { let r = regex_replace(names[*], \"a\", \"-\")\n %r == \"-\" <<fr>> }\nrule fp { let p = parse_int(nums[*])\n %p in [1, 2] <<fp>> }\nrule fs { let s = substring(names[*], 0, 1)\n %s == \"a\" <<fs>> }\nrule fd { let d = url_decode(enc)\n %d == \"a b\" <<fd>> }\nrule fk { let k = json_parse(js)\n %k.k == 2 <<fk>> }\nrule fm { let k = json_parse(js)\n %k.* == 0 <<fm>> }\nrule fn2 { let k = json_parse(js)\n %k.j.* == 0 <<fn2>>\n %k[ keys == /k/ ] == 0 <<fn3>> }\nrule fo { let o = json_parse(jl)\n %o[*].* == 0 <<fo>> }\n";
 const FN_RULES_NAIVE: &str = "rule fe { let e = parse_epoch(t2)\n %e == 1724198400 <<fe>> }\n";
-const FN_DATA: &str = "{\"t1\":\"2024-08-21T00:00:00Z\",\"t2\":\"2024-08-21T00:00:00\",\"l\":[1,2,3],\"names\":[\"a\",\"b\",\"c\"],\"nums\":[\"1\",\"3\"],\"enc\":\"a%20b\",\"js\":\"{\\\"k\\\":1}\"}";
+const FN_DATA: &str = "{\"t1\":\"2024-08-21T00:00:00Z\",\"t2\":\"2024-08-21T00:00:00\",\"l\":[1,2,3],\"names\":[\"a\",\"b\",\"c\"],\"nums\":[\"1\",\"3\"],\"enc\":\"a%20b\",\"js\":\"{\\\"k\\\":1,\\\"k2\\\":2,\\\"k3\\\":3,\\\"k4\\\":4,\\\"j\\\":{\\\"z\\\":1,\\\"y\\\":2,\\\"x\\\":3,\\\"w\\\":4}}\",\"jl\":\"[{\\\"b\\\":1,\\\"a\\\":2,\\\"e\\\":5},{\\\"d\\\":3,\\\"c\\\":4,\\\"f\\\":6}]\"}";
 const TEST_FILE: &str = "- name: one\n  input: {a: 1, b: 1, l: [{x: 1}]}\n  expectations:\n    rules:\n      ra: PASS\n      rb: FAIL\n      rc: SKIP\n      rd: PASS\n      re: FAIL\n      rf: PASS\n- name: two\n  input: {a: 2, b: 1, l: [{x: 2}]}\n  expectations:\n    rules:\n      ra: PASS\n      rb: PASS\n      rd: PASS\n      rf: FAIL\n";
 const TEMPLATE: &str = "{\"Resources\":{\"a\":{\"Type\":\"AWS::S3::Bucket\",\"Properties\":{\"P\":\"s\",\"Q\":5,\"R\":true}},\"b\":{\"Type\":\"AWS::S3::Bucket\",\"Properties\":{\"P\":\"t\",\"Q\":6,\"R\":true}},\"c\":{\"Type\":\"AWS::EC2::Volume\",\"Properties\":{\"P\":\"u\",\"Size\":1}},\"d\":{\"Type\":\"Custom::Thing\",\"Properties\":{\"Z\":[1,2]}}}}";
 
